@@ -324,6 +324,9 @@ type GenBankWriter struct {
 func (w GenBankWriter) WriteSeq(seq gts.Sequence) (int, error) {
 	switch v := seq.(type) {
 	case GenBank:
+		if v.Origin != nil && v.Origin.odd != nil {
+			return 0, fmt.Errorf("cannot write the residue %q in the GenBank format", *v.Origin.odd)
+		}
 		n, err := v.WriteTo(w.w)
 		return int(n), err
 	case *GenBank:
